@@ -368,15 +368,7 @@ pub fn diff_listing(w: &World, after: &[FileEnt]) -> (Vec<usize>, Vec<usize>) {
 
 pub async fn observe_cleanup(ds: &Dataset, base: &Path, w: &World, pol: &Pol) -> Observed {
     let r = ds.cleanup_with_policy(pol.to_lance()).await;
-    let mut after = list_dir(base);
-    // SANITY-TEST SABOTAGE (temporary): pretend the implementation also deleted a data file of the latest version
-    {
-        static N: std::sync::atomic::AtomicUsize = std::sync::atomic::AtomicUsize::new(0);
-        if N.fetch_add(1, std::sync::atomic::Ordering::SeqCst) == 17 && r.is_ok() {
-            let victim = w.manifests.last().unwrap().refs.data[0].clone();
-            after.retain(|f| f.rel != victim);
-        }
-    }
+    let after = list_dir(base);
     let (gone_files, gone_manifests) = diff_listing(w, &after);
     Observed { result: r.map(|s: RemovalStats| (s.bytes_removed, s.old_versions)).map_err(short), gone_files, gone_manifests, after }
 }
